@@ -454,6 +454,18 @@ def check(run):
                 for X, Y in ((A, B), (B, A)):
                     for op in ('inter', 'contains'):
                         lines4.append(f'rel.{op} {X.tokens()} | {Y.tokens()}')
+        # the same shell with and without its holes, asked about in both orders within one process: shapes that are equal
+        # as far as `hash` looks (the hash leaves holes out) are still different shapes (seeded change C02-r2 memoised
+        # `edges()` under `hash(self)`)
+        for A in bases[2:]:
+            A0 = planar.PShape(A.kind, raw=A.raw, holes=[], nw=A.nw, se=A.se)
+            for k in (6, 12, 7, 10):
+                B = derive(rng, A, force=(k, rep % 2 == 0))
+                order = (A0, A, A0) if (rep + k) % 2 else (A, A0, A)
+                for X in order:
+                    for op in ('inter', 'contains'):
+                        lines4.append(f'rel.{op} {X.tokens()} | {B.tokens()}')
+                        lines4.append(f'rel.{op} {B.tokens()} | {X.tokens()}')
     run.run_cases('every-relational-placement', lines4, impl, spec,
                   tag=lambda ln, a: ['placement:' + ln.split()[0] + ':' + (a if a in 'TF' else 'ERR')])
 
